@@ -95,37 +95,53 @@ func synthesizable(t reflect.Type) bool {
 var strPool = []string{"", "a", "X-Custom", "Content-Type", "Content-Length", "Connection", "close", "keep-alive", "text/plain", "application/json", "/path?q=1", "http://other.example/x?y=2#f", "k=v", "Cookie", "Set-Cookie", "k", "v", "Trailer", "X-T",
 	"Transfer-Encoding", "chunked", "100-continue", "Expect", "gzip", "Content-Encoding", "multipart/form-data; boundary=b", "GET", "HEAD", "POST", "Host", "evil.example", "Server", "Date", "Location", "7", "User-Agent", "Authorization", "Basic dTpw"}
 
-func genArg(t *rapid.T, ty reflect.Type) reflect.Value {
+// genArg draws the description of one argument and returns a factory for it: every run of a
+// program (and every goroutine in the concurrent unit) gets its own fresh value, so byte slices,
+// readers, maps and cookies are never shared between handler invocations.
+func genArg(t *rapid.T, ty reflect.Type) func() reflect.Value {
 	switch ty {
 	case tString:
-		return reflect.ValueOf(rapid.SampledFrom(strPool).Draw(t, "str"))
+		v := rapid.SampledFrom(strPool).Draw(t, "str")
+		return func() reflect.Value { return reflect.ValueOf(v) }
 	case tBytes:
-		return reflect.ValueOf([]byte(rapid.SampledFrom(strPool).Draw(t, "bytes")))
+		v := rapid.SampledFrom(strPool).Draw(t, "bytes")
+		return func() reflect.Value { return reflect.ValueOf([]byte(v)) }
 	case tInt:
-		return reflect.ValueOf(rapid.SampledFrom([]int{-1, 0, 1, 2, 5, 63, 100, 200, 204, 206, 301, 304, 404, 500, 4096, 1 << 20}).Draw(t, "int"))
+		v := rapid.SampledFrom([]int{-1, 0, 1, 2, 5, 63, 100, 200, 204, 206, 301, 304, 404, 500, 4096, 1 << 20}).Draw(t, "int")
+		return func() reflect.Value { return reflect.ValueOf(v) }
 	case tBool:
-		return reflect.ValueOf(rapid.Bool().Draw(t, "bool"))
+		v := rapid.Bool().Draw(t, "bool")
+		return func() reflect.Value { return reflect.ValueOf(v) }
 	case tTime:
-		return reflect.ValueOf(time.Unix(int64(rapid.SampledFrom([]int{0, 1, 1700000000}).Draw(t, "time")), 0))
+		v := int64(rapid.SampledFrom([]int{0, 1, 1700000000}).Draw(t, "time"))
+		return func() reflect.Value { return reflect.ValueOf(time.Unix(v, 0)) }
 	case tReader:
-		return reflect.ValueOf(io.Reader(strings.NewReader(rapid.SampledFrom([]string{"", "streamdata", "0123456789"}).Draw(t, "reader")))).Convert(tReader)
+		v := rapid.SampledFrom([]string{"", "streamdata", "0123456789"}).Draw(t, "reader")
+		return func() reflect.Value { return reflect.ValueOf(io.Reader(strings.NewReader(v))).Convert(tReader) }
 	case tError:
-		return reflect.ValueOf(errors.New("generated error")).Convert(tError)
+		return func() reflect.Value { return reflect.ValueOf(errors.New("generated error")).Convert(tError) }
 	case tAny:
-		return reflect.ValueOf(interface{}(rapid.SampledFrom([]string{"val", "other"}).Draw(t, "any")))
+		v := rapid.SampledFrom([]string{"val", "other"}).Draw(t, "any")
+		return func() reflect.Value { return reflect.ValueOf(interface{}(v)) }
 	case tMapSS:
-		return reflect.ValueOf(map[string]string{rapid.SampledFrom(strPool).Draw(t, "mk"): rapid.SampledFrom(strPool).Draw(t, "mv")})
+		k, v := rapid.SampledFrom(strPool).Draw(t, "mk"), rapid.SampledFrom(strPool).Draw(t, "mv")
+		return func() reflect.Value { return reflect.ValueOf(map[string]string{k: v}) }
 	case tSame:
-		return reflect.ValueOf(protocol.CookieSameSite(rapid.IntRange(0, 4).Draw(t, "sameSite")))
+		v := rapid.IntRange(0, 4).Draw(t, "sameSite")
+		return func() reflect.Value { return reflect.ValueOf(protocol.CookieSameSite(v)) }
 	case tCookie:
-		c := &protocol.Cookie{}
-		c.SetKey(rapid.SampledFrom([]string{"k", "sess"}).Draw(t, "ck"))
-		c.SetValue("cv")
-		return reflect.ValueOf(c)
+		k := rapid.SampledFrom([]string{"k", "sess"}).Draw(t, "ck")
+		return func() reflect.Value {
+			c := &protocol.Cookie{}
+			c.SetKey(k)
+			c.SetValue("cv")
+			return reflect.ValueOf(c)
+		}
 	case tCtx:
-		return reflect.ValueOf(context.Background()).Convert(tCtx)
+		return func() reflect.Value { return reflect.ValueOf(context.Background()).Convert(tCtx) }
 	case tStrings:
-		return reflect.ValueOf([]string{rapid.SampledFrom(strPool).Draw(t, "s0")})
+		v := rapid.SampledFrom(strPool).Draw(t, "s0")
+		return func() reflect.Value { return reflect.ValueOf([]string{v}) }
 	}
 	panic("unsynthesizable " + ty.String())
 }
@@ -135,7 +151,7 @@ type call struct {
 	Method string   `json:"method"`
 	Args   []string `json:"args"`
 	ti     int
-	args   []reflect.Value
+	args   []func() reflect.Value
 }
 
 type methodRef struct {
@@ -198,13 +214,13 @@ func genProgram(t *rapid.T) []call {
 				for j := 0; j < nv; j++ {
 					a := genArg(t, in.Elem())
 					c.args = append(c.args, a)
-					c.Args = append(c.Args, fmt.Sprintf("%.40v", a.Interface()))
+					c.Args = append(c.Args, fmt.Sprintf("%.40v", a().Interface()))
 				}
 				continue
 			}
 			a := genArg(t, in)
 			c.args = append(c.args, a)
-			c.Args = append(c.Args, fmt.Sprintf("%.40v", a.Interface()))
+			c.Args = append(c.Args, fmt.Sprintf("%.40v", a().Interface()))
 		}
 		prog = append(prog, c)
 	}
@@ -240,7 +256,11 @@ func runProgram(ctx *app.RequestContext, prog []call) {
 				return
 			}
 			v := targets[c.ti].get(ctx)
-			v.MethodByName(c.Method).Call(c.args)
+			args := make([]reflect.Value, len(c.args))
+			for i, mk := range c.args {
+				args[i] = mk()
+			}
+			v.MethodByName(c.Method).Call(args)
 		}()
 	}
 }
@@ -699,7 +719,7 @@ func TestC09Pooled(t *testing.T) {
 				if m.Type.IsVariadic() && a == m.Type.NumIn()-1 {
 					continue
 				}
-				args = append(args, genArg(t, in))
+				args = append(args, genArg(t, in)())
 			}
 			log = append(log, ty.String()+"."+m.Name)
 			func() {
